@@ -9,3 +9,5 @@ open Fzf.Props.C09
 #print axioms C09_toggle_involution
 #print axioms C09_kill_yank_inverse
 #print axioms C09_sel_survives_query
+#print axioms C09_track_follows
+#print axioms C09_excluded_stays_out
